@@ -20,13 +20,13 @@ namespace SimVerif
 theorem C11_exclusive (c : NetCfg) (hc : c.WF) (ls : List NLbl) :
     (((NS.init c).run ls).n.reg.udp.map Prod.fst).Nodup
     ∧ (((NS.init c).run ls).n.reg.tcp.map Prod.fst).Nodup :=
-  ⟨(RInv.run c hc ls).udp.nodup, (RInv.run c hc ls).tcp.nodup⟩
+  ⟨(RegInv.run c hc ls).udp.nodup, (RegInv.run c hc ls).tcp.nodup⟩
 
 /-- **UDP entries are exactly the open, bound sockets.** -/
 theorem C11_inv_udp (c : NetCfg) (hc : c.WF) (ls : List NLbl) (ep : Ep) (name : String) :
     (ep, name) ∈ ((NS.init c).run ls).n.reg.udp ↔
       ∃ u, ((NS.init c).run ls).n.udp? name = some u ∧ u.isOpen = true ∧ u.bound = ep ∧ ep.isDefault = false := by
-  have h := RInv.run c hc ls
+  have h := RegInv.run c hc ls
   constructor
   · intro hm
     obtain ⟨h1, h2⟩ := h.udp.sound ep name hm
@@ -42,7 +42,7 @@ theorem C11_inv_udp (c : NetCfg) (hc : c.WF) (ls : List NLbl) (ep : Ep) (name : 
 theorem C11_inv_tcp_sound (c : NetCfg) (hc : c.WF) (ls : List NLbl) (ep : Ep) (name : String)
     (hm : (ep, name) ∈ ((NS.init c).run ls).n.reg.tcp) :
     ∃ t, ((NS.init c).run ls).n.tcp? name = some t ∧ t.isOpen = true ∧ t.bound = ep ∧ ep.isDefault = false := by
-  have h := RInv.run c hc ls
+  have h := RegInv.run c hc ls
   obtain ⟨h1, h2⟩ := h.tcp.sound ep name hm
   cases hu : ((NS.init c).run ls).n.tcp? name with
   | none => simp [NetSt.tb, hu] at h1
@@ -56,14 +56,14 @@ theorem C11_inv_tcp_complete (c : NetCfg) (hc : c.WF) (ls : List NLbl) (name : S
     (ht : ((NS.init c).run ls).n.tcp? name = some t) (ho : t.isOpen = true)
     (hd : t.bound.isDefault = false) (hna : name ∉ ((NS.init c).run ls).attached) :
     (t.bound, name) ∈ ((NS.init c).run ls).n.reg.tcp :=
-  (RInv.run c hc ls).tcp.complete name t.bound (by simp [NetSt.tb, ht, ho]) hd hna
+  (RegInv.run c hc ls).tcp.complete name t.bound (by simp [NetSt.tb, ht, ho]) hd hna
 
 /-- An accepted socket is open, carries an endpoint, and holds NO entry of the table. -/
 theorem C11_inv_tcp_attached (c : NetCfg) (hc : c.WF) (ls : List NLbl) (name : String)
     (ha : name ∈ ((NS.init c).run ls).attached) :
     (∃ t, ((NS.init c).run ls).n.tcp? name = some t ∧ t.isOpen = true ∧ t.bound.isDefault = false)
     ∧ ∀ ep, (ep, name) ∉ ((NS.init c).run ls).n.reg.tcp := by
-  have h := RInv.run c hc ls
+  have h := RegInv.run c hc ls
   refine ⟨?_, h.tcp.att_none name ha⟩
   obtain ⟨ep, h1, h2⟩ := h.tcp.att_bound name ha
   cases hu : ((NS.init c).run ls).n.tcp? name with
@@ -96,7 +96,7 @@ theorem C11_one_owner_tcp (c : NetCfg) (hc : c.WF) (ls : List NLbl) (a b : Strin
 theorem C11_closed_unbound (c : NetCfg) (hc : c.WF) (ls : List NLbl) (name : String) :
     (∀ u, ((NS.init c).run ls).n.udp? name = some u → u.isOpen = false → u.bound = {})
     ∧ (∀ t, ((NS.init c).run ls).n.tcp? name = some t → t.isOpen = false → t.bound = {}) := by
-  have h := RInv.run c hc ls
+  have h := RegInv.run c hc ls
   exact ⟨fun u hu ho => h.udp.closed name u.bound (by simp [NetSt.ub, hu, ho]),
          fun t ht ho => h.tcp.closed name t.bound (by simp [NetSt.tb, ht, ho])⟩
 
@@ -442,7 +442,7 @@ theorem tcpBind_ok_pre (n : NetSt) (name : String) (ep : Ep) (h : (n.tcpBind nam
 /-- **Counter invariant**: `m_next_bind_port` stays within [2000, 65534]. -/
 theorem C11_counter (c : NetCfg) (hc : c.WF) (ls : List NLbl) :
     2000 ≤ ((NS.init c).run ls).n.reg.nextPort ∧ ((NS.init c).run ls).n.reg.nextPort ≤ 65534 :=
-  (RInv.run c hc ls).port
+  (RegInv.run c hc ls).port
 
 /-- **Ephemeral ports are free.** A successful UDP bind to port 0 in any reachable state binds
     the socket to an endpoint that NO entry of the UDP table had before, on the resolved
@@ -489,7 +489,7 @@ theorem C11_ephemeral_free_tcp (c : NetCfg) (hc : c.WF) (ls : List NLbl) (name :
 theorem C11_ports_unprivileged (c : NetCfg) (hc : c.WF) (ls : List NLbl) :
     (∀ ep nm, (ep, nm) ∈ ((NS.init c).run ls).n.reg.udp → 1024 ≤ ep.port)
     ∧ (∀ ep nm, (ep, nm) ∈ ((NS.init c).run ls).n.reg.tcp → 1024 ≤ ep.port) :=
-  ⟨(RInv.run c hc ls).udp.ports, (RInv.run c hc ls).tcp.ports⟩
+  ⟨(RegInv.run c hc ls).udp.ports, (RegInv.run c hc ls).tcp.ports⟩
 
 /-! ## TCP and UDP port spaces are independent -/
 
@@ -646,7 +646,7 @@ theorem C11_counter_moves (s : NS) (l : NLbl) :
 /-- **Release.** After `close`, the destructor, or `open` on UDP socket `name`, no entry of
     the UDP table maps to `name` — in any state `s`, reachable or not. -/
 theorem C11_release_udp (s : NS) (name : String) (l : NLbl)
-    (hl : l = .uClose name ∨ l = .uDestroy name ∨ (∃ v4, l = .uOpen name v4)) (hr : RInv s) :
+    (hl : l = .uClose name ∨ l = .uDestroy name ∨ (∃ v4, l = .uOpen name v4)) (hr : RegInv s) :
     ∀ ep, (ep, name) ∉ (s.step l).n.reg.udp := by
   have hr' := hr.step l
   intro ep hm
@@ -674,7 +674,7 @@ theorem C11_release_udp (s : NS) (name : String) (l : NLbl)
 
 theorem C11_release_tcp (s : NS) (name : String) (l : NLbl)
     (hl : (∃ now, l = .tClose now name) ∨ (∃ now, l = .tDestroy now name) ∨ (∃ now, l = .aClose now name)
-          ∨ (∃ now v4, l = .tOpen now name v4)) (hr : RInv s) :
+          ∨ (∃ now v4, l = .tOpen now name v4)) (hr : RegInv s) :
     ∀ ep, (ep, name) ∉ (s.step l).n.reg.tcp := by
   have hr' := hr.step l
   intro ep hm
@@ -708,7 +708,7 @@ theorem C11_release (c : NetCfg) (hc : c.WF) (ls : List NLbl) (name : String) :
     ∧ (∀ now ep, (ep, name) ∉ (((NS.init c).run ls).step (.tDestroy now name)).n.reg.tcp)
     ∧ (∀ now ep, (ep, name) ∉ (((NS.init c).run ls).step (.aClose now name)).n.reg.tcp)
     ∧ (∀ now v4 ep, (ep, name) ∉ (((NS.init c).run ls).step (.tOpen now name v4)).n.reg.tcp) := by
-  have hr := RInv.run c hc ls
+  have hr := RegInv.run c hc ls
   exact ⟨C11_release_udp _ name _ (Or.inl rfl) hr,
     C11_release_udp _ name _ (Or.inr (Or.inl rfl)) hr,
     fun v4 => C11_release_udp _ name _ (Or.inr (Or.inr ⟨v4, rfl⟩)) hr,
@@ -728,7 +728,7 @@ theorem C11_cfg_constant (c : NetCfg) (ls : List NLbl) : ((NS.init c).run ls).n.
   | cons l ls ih => exact fun s => (ih _).trans (C11_step_cfg s l)
 
 /-- closing the holder of `ep` frees `ep` -/
-theorem closeEffU_frees {n n' : NetSt} {att : List String} (h : RInvN n att) {name : String} {ep : Ep}
+theorem closeEffU_frees {n n' : NetSt} {att : List String} (h : RegInvN n att) {name : String} {ep : Ep}
     (hreg : n'.reg.udp = match n.uv name with
           | some v => if v.2.1.isDefault then n.reg.udp else simUnbind n.reg.udp name v.2.1
           | none => n.reg.udp)
@@ -758,7 +758,7 @@ theorem C11_release_rebind_udp (c : NetCfg) (hc : c.WF) (ls : List NLbl) (name o
     (ho : v.isOpen = true) (hfam : ep.isV4 = v.isV4) (hub : v.bound.isDefault = true)
     (hown : ep.addr ∈ c.ipsOf v.node) :
     ((((NS.init c).run ls).step l).n.udpBind other ep).2 = .ok := by
-  have hr := RInv.run c hc ls
+  have hr := RegInv.run c hc ls
   have hcfg : (((NS.init c).run ls).step l).n.cfg = c := by
     rw [C11_step_cfg, C11_cfg_constant]
   have hfree : (((NS.init c).run ls).step l).n.reg.udp.lookup ep = none := by
@@ -776,7 +776,7 @@ theorem C11_release_rebind_udp (c : NetCfg) (hc : c.WF) (ls : List NLbl) (name o
   rw [C11_error_table_udp_ok _ other ep ep v ⟨hv, ho, hfam, hub, hres⟩ hport hfree]
 
 
-theorem closeEff_frees {n n' : NetSt} {att : List String} (h : RInvN n att) {name : String} {ep : Ep}
+theorem closeEff_frees {n n' : NetSt} {att : List String} (h : RegInvN n att) {name : String} {ep : Ep}
     (hreg : n'.reg.tcp = match n.tv name with
           | some v => if v.2.1.isDefault then n.reg.tcp else simUnbind n.reg.tcp name v.2.1
           | none => n.reg.tcp)
@@ -806,7 +806,7 @@ theorem C11_release_rebind_tcp (c : NetCfg) (hc : c.WF) (ls : List NLbl) (name o
     (ho : v.isOpen = true) (hfam : ep.isV4 = v.isV4) (hub : v.bound.isDefault = true)
     (hown : ep.addr ∈ c.ipsOf v.node) :
     ((((NS.init c).run ls).step l).n.tcpBind other ep).2 = .ok := by
-  have hr := RInv.run c hc ls
+  have hr := RegInv.run c hc ls
   have hcfg : (((NS.init c).run ls).step l).n.cfg = c := by
     rw [C11_step_cfg, C11_cfg_constant]
   have hfree : (((NS.init c).run ls).step l).n.reg.tcp.lookup ep = none := by
@@ -836,7 +836,7 @@ theorem C11_move_transfers_udp (c : NetCfg) (hc : c.WF) (ls : List NLbl) (src ds
     ∧ (∀ ep, (ep, src) ∉ (((NS.init c).run ls).step (.uMove src dst)).n.reg.udp)
     ∧ (∃ u', (((NS.init c).run ls).step (.uMove src dst)).n.udp? src = some u' ∧ u'.isOpen = false ∧ u'.bound = {})
     ∧ (((NS.init c).run ls).step (.uMove src dst)).n.udp? dst = some u := by
-  have hr := RInv.run c hc ls
+  have hr := RegInv.run c hc ls
   have hr' := hr.step (.uMove src dst)
   have hstep : (((NS.init c).run ls).step (.uMove src dst)).n = ((NS.init c).run ls).n.udpMove src dst := by
     simp [NS.step, hfresh, hu]
@@ -872,7 +872,7 @@ theorem C11_move_transfers_tcp (c : NetCfg) (hc : c.WF) (ls : List NLbl) (src ds
     ∧ (∃ t', (((NS.init c).run ls).step (.tMove src dst)).n.tcp? src = some t' ∧ t'.isOpen = false ∧ t'.bound = {})
     ∧ (((NS.init c).run ls).step (.tMove src dst)).n.tcp? dst = some t
     ∧ (src ∈ ((NS.init c).run ls).attached → dst ∈ (((NS.init c).run ls).step (.tMove src dst)).attached) := by
-  have hr := RInv.run c hc ls
+  have hr := RegInv.run c hc ls
   have hr' := hr.step (.tMove src dst)
   have hstep : (((NS.init c).run ls).step (.tMove src dst)).n = ((NS.init c).run ls).n.tcpMove src dst := by
     simp [NS.step, hfresh, ht]
@@ -952,7 +952,7 @@ theorem C11_accepted_close (c : NetCfg) (hc : c.WF) (ls : List NLbl) (name acc :
     (ep, acc) ∈ (((NS.init c).run ls).step (.tClose now name)).n.reg.tcp := by
   have hne : acc ≠ name := by
     intro hc'; subst hc'
-    exact (RInv.run c hc ls).tcp.att_none acc ha ep h
+    exact (RegInv.run c hc ls).tcp.att_none acc ha ep h
   exact (C11_accepted_close_keeps_acceptor _ name acc ep h hne now).1
 
 
@@ -971,7 +971,7 @@ theorem C11_no_stale_delivery_udp (c : NetCfg) (hc : c.WF) (ls : List NLbl) (src
     ∃ tgt t f, (dst, tgt) ∈ ((NS.init c).run ls).n.reg.udp ∧ ((NS.init c).run ls).n.udp? tgt = some t
       ∧ t.isOpen = true ∧ t.bound = dst ∧ t.fwd = some f ∧ ((NS.init c).run ls).n.fwdTarget f = some tgt
       ∧ hops = c.outRoute src.addr ++ c.netRoute src.addr dst.addr ++ c.inRoute dst.addr ++ [fwdHop f] := by
-  have hr := RInv.run c hc ls
+  have hr := RegInv.run c hc ls
   have hcfg := C11_cfg_constant c ls
   unfold NetSt.udpRoute at h
   cases hl : ((NS.init c).run ls).n.reg.udp.lookup dst with
@@ -1008,7 +1008,7 @@ theorem C11_no_stale_delivery_tcp (c : NetCfg) (hc : c.WF) (ls : List NLbl) (nam
       ∧ ((NS.init c).run ls).n.fwdTarget f = some rname
       ∧ ∃ syn : Pkt, (((NS.init c).run ls).n.internalConnect name target).2.1 = [.forward syn] ∧ syn.ty = .syn
         ∧ syn.hops = c.outRoute s.bound.addr ++ c.netRoute s.bound.addr target.addr ++ c.inRoute target.addr ++ [fwdHop f] := by
-  have hr := RInv.run c hc ls
+  have hr := RegInv.run c hc ls
   have hcfg := C11_cfg_constant c ls
   unfold NetSt.internalConnect at h ⊢
   cases hs : ((NS.init c).run ls).n.tcp? name with
@@ -1048,7 +1048,7 @@ theorem C11_detached_swallows (s : NS) (f : Nat) (p : Pkt) (h : s.n.fwdTarget f 
 /-- `close` / the destructor / `open` detach the forwarder the socket held (datagrams and SYNs
     in flight towards it vanish) -/
 theorem C11_close_detaches (s : NS) (name : String) (u : UdpSock) (f : Nat)
-    (hu : s.n.udp? name = some u) (hf : u.fwd = some f) (hr : RInv s) :
+    (hu : s.n.udp? name = some u) (hf : u.fwd = some f) (hr : RegInv s) :
     (s.step (.uClose name)).n.fwdTarget f = none ∧ (s.step (.uDestroy name)).n.fwdTarget f = none
     ∧ ∀ v4, (s.step (.uOpen name v4)).n.fwdTarget f = none := by
   have hv : (s.n.uv name).bind (·.2.2) = some f := by simp [NetSt.uv, hu, UdpSock.view, hf]
